@@ -46,6 +46,15 @@ def run(ctx):
     from .c03 import layout_rule
     layout_rule(ctx, "C02/LAYOUT")
     _tzid_read(ctx)
+    # parameters supplied through the API are read back unchanged (E9 string model, shared with C05/C08)
+    from .. import strmodel
+    strmodel.report(ctx, "C02/PARAM-WIRE", strmodel.explore_params_extended, ["line round trip", "round trip"],
+                    m.own_method("parser.Parameters.to_ical").loc(), 300,
+                    select=lambda law: law in ("line round trip", "round trip"))
+    # every date/time/duration/period text of a property is decoded as the type its grammar says
+    from .. import codecmodel
+    codecmodel.report(ctx, "C02/DISPATCH", codecmodel.explore_dispatch, ["classification", "composite"],
+                      m.cls("prop.vDDDTypes").loc(), 100)
 
 
 # ---------------------------------------------------------------------------
@@ -275,6 +284,34 @@ def _accum(ctx):
         ctx.check(got == seq, "C02/ACCUM", f"existing={old} added={new}",
                   f"after the adds the property holds {got}, expected {seq} "
                   f"(insertion order, earlier values first)", ci.loc(), detail=str(seq))
+    # values that are false in a boolean test (empty text, 0) are values like any other
+    vint = m.cls("prop.vInt")
+    for label, first, rest in (("'' then text", "", ["b1"]), ("'' then list", "", [["b1", "b2"]]),
+                               ("'' twice then text", "", ["", "c1"]),
+                               ("vInt(0) then vInt(25), vInt(0)", 0, [25, 0])):
+        comp = it.call(ClassVal(ci), [], {})
+        want = []
+
+        def put(v):
+            if isinstance(v, int):
+                it.call(it.getattr(comp, "add"), ["x-checkpoint", it.call(ClassVal(vint), [v], {})],
+                        {"encode": False})
+                want.append(str(v))
+            else:
+                it.call(it.getattr(comp, "add"), ["comment", v], {})
+                want.extend(v if isinstance(v, list) else [v])
+        try:
+            put(first)
+            for r in rest:
+                put(r)
+        except (AbsRaise, Unsupported) as e:
+            raise AnalysisError(f"Component.add with a falsy first value ({label}): {e}")
+        stored = comp.items.get("COMMENT" if not isinstance(first, int) else "X-CHECKPOINT")
+        got = [it._str(x) for x in (stored if isinstance(stored, list) else [stored])]
+        ctx.check(got == want, "C02/ACCUM", f"falsy existing value: {label}",
+                  f"after the adds the property holds {got}, expected {want}: a value that is "
+                  f"false in a boolean test (empty text, 0) was treated as absent", ci.loc(),
+                  detail=str(want))
 
 
 def _tzid_read(ctx):
